@@ -68,4 +68,29 @@ PROPS["C04"] = {
     "replay_hint": "exec the described def under the named interpreter; compare CodeData.from_code(f.__code__).type with inspect.signature(f), f.__doc__",
 }
 
+VIEW_IMPORTS = DATA_IMPORTS + " Spec.Lnotab Spec.Dis Model.ViewSer"
+PROPS["C13"] = {
+    "imports": VIEW_IMPORTS,
+    "prelude": "Definition cfg := Cfg{TAG}.cfg.",
+    "level_text": "Theorem for every byte string and every table contents: whenever bytes_to_blocks succeeds and jump targets are instruction starts, the blocks are exactly the "
+                  "partition at {0} + jump targets (concatenation, non-empty, starts = targets, indices in range and pointing at the right block, every later block targeted); "
+                  "pi_C13 (block lengths + target indices) of model and implementation compared on real code objects; dis gives the independent jump-target set",
+    "level_note": "assumption monitored on every corpus object: jump targets are instruction starts (count in coverage.input_distribution targets_are_starts)",
+    "trusted_base": COMMON_TB + ["dis.get_instructions of the running interpreter as the independent reader of jump targets"],
+    "assumptions": ["jump targets of compiled code are instruction starts (monitored)"],
+    "rule": "every code object of the corpus and of generated programs; distinct = distinct (co_code, name, firstlineno)",
+    "replay_hint": "compile the named source under the named interpreter; compare [len(b) for b in CodeData.from_code(c).blocks] with the jump targets dis reports",
+}
+PROPS["C02"] = {
+    "imports": VIEW_IMPORTS,
+    "prelude": "Definition cfg := Cfg{TAG}.cfg.",
+    "level_text": "TODO",
+    "level_note": "TODO",
+    "trusted_base": COMMON_TB + ["Spec/Dis.v transcription of dis._unpack_opargs / get_instructions, compared with the real dis on every run (group spec-dis)"],
+    "assumptions": ["compiled code: operands below 2^31, EXTENDED_ARG only in front of opcodes with an argument"],
+    "rule": "every code object of the corpus and of generated programs; distinct = distinct (co_code, name, firstlineno, line table)",
+    "replay_hint": "compile the named source; compare CodeData.from_code(c).blocks flattened with dis.get_instructions(c) and co_lines()/PyCode_Addr2Line",
+    "claimed": False,
+}
+
 NOT_CLAIMED = {}
